@@ -121,6 +121,14 @@ func (g *Gen) runOnce() {
 		st.cells["ghost:"+gv.Name] = Val{T: init}
 	}
 	fr.entry = st // provisional for old() inside requires
+	if pk := pkgOf(fn); pk != nil {
+		for _, ax := range g.P.axioms[pk.Path()] {
+			env := g.envFor(fr, st)
+			env.fr = nil
+			g.assume(st, env.evalBool(ax.Expr))
+			g.note("axiom " + ax.Label + " (" + pk.Name() + "): " + ax.Src)
+		}
+	}
 	for _, r := range con.Requires {
 		env := g.envFor(fr, st)
 		env.preferParams = true
